@@ -6,8 +6,18 @@ use serde_json::{Value, json};
 use std::net::SocketAddr;
 use std::time::{Duration, Instant, SystemTime, UNIX_EPOCH};
 
+/// A port no other scenario of this process is given (a counter over a range below the ephemeral ports, so that neither another scenario
+/// nor one of the harness's own outgoing connections can take it between this check and the bind of the code under test).
 fn free_port() -> u16 {
-    std::net::TcpListener::bind("127.0.0.1:0").unwrap().local_addr().unwrap().port()
+    static NEXT: std::sync::atomic::AtomicU32 = std::sync::atomic::AtomicU32::new(0);
+    let base = 12000 + (std::process::id() % 97) * 150;
+    loop {
+        let k = NEXT.fetch_add(1, std::sync::atomic::Ordering::Relaxed);
+        let p = (base + k % 18000) as u16;
+        if std::net::TcpListener::bind(("127.0.0.1", p)).is_ok() {
+            return p;
+        }
+    }
 }
 
 async fn start_app(sc: &Value) -> Option<(u16, tokio::task::JoinHandle<()>)> {
@@ -39,8 +49,14 @@ async fn start_app(sc: &Value) -> Option<(u16, tokio::task::JoinHandle<()>)> {
         let _ = passage::start(config).await.map_err(|e| e.to_string());
     });
     for _ in 0..300 {
+        if h.is_finished() {
+            return None; // the application gave up (configuration refused, address in use): nobody of ours listens there
+        }
         if tokio::net::TcpStream::connect(("127.0.0.1", port)).await.is_ok() {
             tokio::time::sleep(Duration::from_millis(30)).await;
+            if h.is_finished() {
+                return None;
+            }
             return Some((port, h));
         }
         tokio::time::sleep(Duration::from_millis(10)).await;
